@@ -53,7 +53,6 @@ type Solver struct {
 
 func NewSolver(kind string, timeoutMs int, tt *TermTable) *Solver {
 	s := &Solver{kind: kind, timeoutMs: timeoutMs, tt: tt}
-	s.start()
 	return s
 }
 
@@ -236,6 +235,9 @@ func (s *Solver) readSexp() string {
 
 // Check decides pc ∧ extra. With wantModel a satisfying assignment of all declared variables is returned.
 func (s *Solver) Check(pc []*Term, extra *Term, wantModel bool) (Result, Model) {
+	if s.cmd == nil {
+		s.start()
+	}
 	if s.ndefs > 400000 {
 		s.restart()
 	}
